@@ -295,7 +295,7 @@ fn ref_pages(doc: &Document) -> Vec<ObjectId> {
 
 struct Prep {
     doc: Document,
-    tag2old: HashMap<i64, ObjectId>,
+    tag2old: BTreeMap<i64, ObjectId>,
     /// objects reachable from the trailer through references that resolve
     reach: Vec<ObjectId>,
     pages: Vec<ObjectId>,
@@ -312,7 +312,7 @@ fn collect_refs(o: &Object, out: &mut Vec<ObjectId>) {
 }
 
 fn prepare(doc: Document) -> Result<Prep, String> {
-    let mut tag2old = HashMap::new();
+    let mut tag2old = BTreeMap::new();
     let mut nums = BTreeSet::new();
     for (id, o) in &doc.objects {
         let t = tag_of(o).ok_or_else(|| format!("object {:?} carries no integer /Tag (outside the check's domain)", id))?;
@@ -385,7 +385,7 @@ fn render(root: &str, path: &[Seg]) -> String {
 }
 
 struct Ctx<'a> {
-    rho: &'a HashMap<ObjectId, ObjectId>,
+    rho: &'a BTreeMap<ObjectId, ObjectId>,
     new_objects: &'a BTreeMap<ObjectId, Object>,
     /// None = the trailer, Some((old, new)) = an indirect object
     root: Option<(ObjectId, ObjectId)>,
@@ -449,6 +449,15 @@ fn cmp_ren<'a>(o: &'a Object, n: &'a Object, path: &mut Vec<Seg<'a>>, cx: &Ctx, 
 }
 
 fn cmp_dict<'a>(a: &'a Dictionary, b: &'a Dictionary, path: &mut Vec<Seg<'a>>, cx: &Ctx, out: &mut Vec<Mis>) {
+    // fast path: same keys in the same order (entry order itself is not compared)
+    if a.len() == b.len() && a.iter().zip(b.iter()).all(|(x, y)| x.0 == y.0) {
+        for ((k, v), (_, w)) in a.iter().zip(b.iter()) {
+            path.push(Seg::K(k));
+            cmp_ren(v, w, path, cx, out);
+            path.pop();
+        }
+        return;
+    }
     for (k, v) in a.iter() {
         match b.get(k) {
             Ok(w) => {
@@ -518,7 +527,7 @@ fn run_case(p: &Prep, bms: &[Bm], start: Option<u32>) -> Outcome {
         return out;
     }
     // rho from the tags
-    let mut rho: HashMap<ObjectId, ObjectId> = HashMap::with_capacity(n);
+    let mut rho: BTreeMap<ObjectId, ObjectId> = BTreeMap::new();
     for (nid, o) in &d.objects {
         let Some(old) = tag_of(o).and_then(|t| p.tag2old.get(&t)) else {
             out.fatal = Some(format!("object {} {} has no known tag after renumbering: {}", nid.0, nid.1, show(o)));
@@ -898,7 +907,7 @@ struct Shared<'a> {
     run: &'a Run,
     /// finding ids of this property that are open in known_findings.json
     open: Vec<String>,
-    full_json_left: AtomicU64,
+    full_json_left: [AtomicU64; 4],
     samples_left: AtomicU64,
 }
 
@@ -916,14 +925,14 @@ const EXPECTED: &str = "numbers start..start+n-1, generations kept, max_id = las
 
 /// All cases of one document structure (shape + ids): every start value, with and without
 /// dangling references, every bookmark list.
-fn explore_doc(sh: &Shape, ids: &[ObjectId], family: &str, bm_cfgs: &[Vec<(usize, Option<usize>)>], shv: &Shared, t: &mut Tally) {
+fn explore_doc(sh: &Shape, ids: &[ObjectId], family: &str, bm_cfgs: &[Vec<(usize, Option<usize>)>], dang_modes: &[bool], shv: &Shared, t: &mut Tally) {
     let n = ids.len();
     let max = ids.iter().map(|i| i.0).max().unwrap();
     let base = sh.page_base();
     let targets: Vec<ObjectId> = if sh.tree { ids[base..base + sh.k].to_vec() } else { vec![ids[0]] };
     for start in start_values(n, max) {
         let s = start.unwrap_or(1);
-        for with_dang in [false, true] {
+        for &with_dang in dang_modes {
             let dang = if with_dang { dangling(ids, s) } else { vec![] };
             let (doc, order) = build(sh, ids, &dang);
             let prep = match prepare(doc) {
@@ -972,9 +981,16 @@ fn explore_doc(sh: &Shape, ids: &[ObjectId], family: &str, bm_cfgs: &[Vec<(usize
                     t.failing += 1;
                     let verdict = classify(&prep, &bms, start, &out, &mut cache);
                     let all_open = verdict.as_ref().map(|fs| fs.iter().all(|f| shv.open.iter().any(|o| o == f))).unwrap_or(false);
-                    let full = shv.full_json_left.load(Ordering::Relaxed) > 0
-                        && shv.full_json_left.fetch_update(Ordering::SeqCst, Ordering::SeqCst, |x| x.checked_sub(1)).is_ok();
-                    // cases counted under an open catalogued finding need no descriptor after the first few
+                    // a written-out descriptor for the first cases of every verdict; cases counted under
+                    // an open catalogued finding need none afterwards
+                    let slot = match verdict.as_deref() {
+                        None => 0,
+                        Some([CHAIN]) => 1,
+                        Some([DANGLE]) => 2,
+                        Some(_) => 3,
+                    };
+                    let full = shv.full_json_left[slot].load(Ordering::Relaxed) > 0
+                        && shv.full_json_left[slot].fetch_update(Ordering::SeqCst, Ordering::SeqCst, |x| x.checked_sub(1)).is_ok();
                     let (cj, text) = if all_open && !full {
                         (Value::Null, String::new())
                     } else {
@@ -1009,34 +1025,46 @@ fn flush(run: &Run, t: &Tally, family: &str) {
 
 /// Family A: small graphs over every number set.
 fn family_a(run: &Run, shv: &Shared) {
-    let nmax = if run.thorough { 5 } else { 4 };
+    let thorough = run.thorough;
+    let nmax = if thorough { 5 } else { 4 };
     let sparse_pool = [3u32, 70, 1000, 65536, 4_000_000];
     let dense_pool: Vec<u32> = (1..=8).collect();
     let mut number_sets = 0u64;
-    for n in 1..=nmax {
+    // work item: (shape, number set); all sizes in one list so that no core idles
+    let mut work: Vec<(Shape, Vec<u32>)> = vec![];
+    for n in (1..=nmax).rev() {
         let mut sets = subsets(&dense_pool, n);
         sets.extend(subsets(&sparse_pool, n));
         number_sets += sets.len() as u64;
-        let shapes = shapes_a(n);
-        let ps = perms(n);
-        let gm = gen_masks(n, run.thorough && n <= 4);
-        let work: Vec<(usize, usize)> = (0..shapes.len()).flat_map(|a| (0..sets.len()).map(move |b| (a, b))).collect();
-        util::par_for(work.len(), |w| {
-            let (si, ni) = work[w];
-            let sh = &shapes[si];
+        for sh in shapes_a(n) {
             assert_eq!(sh.n(), n);
-            let t_count = if sh.tree { sh.k } else { 1 };
-            let cfgs = bookmark_configs(t_count, if t_count >= 3 { 2 } else { 3 }, t_count <= 2);
-            let mut t = Tally::default();
-            for p in &ps {
-                for g in &gm {
-                    let ids: Vec<ObjectId> = (0..n).map(|i| (sets[ni][p[i]], ((g >> i) & 1) as u16)).collect();
-                    explore_doc(sh, &ids, "A", &cfgs, shv, &mut t);
-                }
+            for set in &sets {
+                work.push((sh.clone(), set.clone()));
             }
-            flush(run, &t, "A");
-        });
+        }
     }
+    util::par_for(work.len(), |w| {
+        let (sh, set) = &work[w];
+        let n = sh.n();
+        let t_count = if sh.tree { sh.k } else { 1 };
+        // bookmark lists: family A is about number sets x assignments; the full 0..3 tuples are family B's
+        let cfgs = if thorough && n <= 4 {
+            bookmark_configs(t_count, 3, true)
+        } else if thorough && t_count == 1 {
+            bookmark_configs(t_count, 3, true)
+        } else {
+            bookmark_configs(t_count, 2, false)
+        };
+        let gm = gen_masks(n, thorough && n <= 4);
+        let mut t = Tally::default();
+        for p in perms(n) {
+            for g in &gm {
+                let ids: Vec<ObjectId> = (0..n).map(|i| (set[p[i]], ((g >> i) & 1) as u16)).collect();
+                explore_doc(sh, &ids, "A", &cfgs, &[false, true], shv, &mut t);
+            }
+        }
+        flush(run, &t, "A");
+    });
     run.add("number_sets_family_a", number_sets);
     // the empty document
     for start in [None, Some(1u32), Some(5)] {
@@ -1053,8 +1081,10 @@ fn family_a(run: &Run, shv: &Shared) {
 /// optional intermediate node) together with all reference placements at once.
 fn family_b(run: &Run, shv: &Shared) {
     let sparse = [2u32, 5, 6, 9, 70, 71, 1000, 1001, 4096, 65536, 65537, 4_000_000];
-    let mut work: Vec<(Shape, Vec<u32>, Vec<usize>, bool)> = vec![];
-    for k in 1..=4usize {
+    // work item: (shape, number set, page positions, other roles descending?, page permutation)
+    let mut work: Vec<(Shape, Vec<u32>, Vec<usize>, bool, Vec<usize>)> = vec![];
+    let mut structures = 0u64;
+    for k in (1..=4usize).rev() {
         let mut inters: Vec<Option<(usize, usize)>> = vec![None, Some((0, k))];
         if k >= 2 {
             inters.push(Some((0, k.div_ceil(2).min(k - 1))));
@@ -1070,7 +1100,10 @@ fn family_b(run: &Run, shv: &Shared) {
             for set in &sets {
                 for lay in &layouts {
                     for rev in [false, true] {
-                        work.push((sh.clone(), set.clone(), lay.clone(), rev));
+                        structures += 1;
+                        for p in perms(k) {
+                            work.push((sh.clone(), set.clone(), lay.clone(), rev, p));
+                        }
                     }
                 }
             }
@@ -1078,7 +1111,7 @@ fn family_b(run: &Run, shv: &Shared) {
     }
     let thorough = run.thorough;
     util::par_for(work.len(), |w| {
-        let (sh, set, lay, rev) = &work[w];
+        let (sh, set, lay, rev, p) = &work[w];
         let n = sh.n();
         let k = sh.k;
         let base = sh.page_base();
@@ -1086,34 +1119,39 @@ fn family_b(run: &Run, shv: &Shared) {
         if *rev {
             others.reverse();
         }
-        let cfgs = if thorough { bookmark_configs(k, 3, true) } else { bookmark_configs(k, 2, k <= 3) };
+        // quick: 4 pages -> <= 2 top-level bookmarks + one nested, dangling refs always present
+        let (cfgs, dang_modes): (_, &[bool]) = if thorough {
+            (bookmark_configs(k, 3, true), &[false, true])
+        } else if k == 4 {
+            (bookmark_configs(k, 2, false), &[true])
+        } else {
+            (bookmark_configs(k, 3, k <= 2), &[false, true])
+        };
         let mut t = Tally::default();
         // generation patterns: none, all, alternating, pages only
         let page_mask: u32 = ((1u32 << k) - 1) << base;
         let full = (1u32 << n) - 1;
-        let mut gm = vec![0, full, 0x5555_5555 & full, page_mask];
+        let mut gm = if !thorough && k == 4 { vec![0, 0x5555_5555 & full] } else { vec![0, full, 0x5555_5555 & full, page_mask] };
         gm.sort();
         gm.dedup();
-        for p in perms(k) {
-            // role -> position in the sorted number list
-            let mut pos = vec![0usize; n];
-            let mut oi = 0;
-            for (role, slot) in pos.iter_mut().enumerate() {
-                if role >= base && role < base + k {
-                    *slot = lay[p[role - base]];
-                } else {
-                    *slot = others[oi];
-                    oi += 1;
-                }
+        // role -> position in the sorted number list
+        let mut pos = vec![0usize; n];
+        let mut oi = 0;
+        for (role, slot) in pos.iter_mut().enumerate() {
+            if role >= base && role < base + k {
+                *slot = lay[p[role - base]];
+            } else {
+                *slot = others[oi];
+                oi += 1;
             }
-            for g in &gm {
-                let ids: Vec<ObjectId> = (0..n).map(|i| (set[pos[i]], ((g >> i) & 1) as u16)).collect();
-                explore_doc(sh, &ids, "B", &cfgs, shv, &mut t);
-            }
+        }
+        for g in &gm {
+            let ids: Vec<ObjectId> = (0..n).map(|i| (set[pos[i]], ((g >> i) & 1) as u16)).collect();
+            explore_doc(sh, &ids, "B", &cfgs, dang_modes, shv, &mut t);
         }
         flush(run, &t, "B");
     });
-    run.add("structures_family_b", work.len() as u64);
+    run.add("structures_family_b", structures);
 }
 
 // ---------------------------------------------------------------------------------------------
@@ -1176,8 +1214,10 @@ fn main() {
          patterns; thorough: all 2^n for n<=4). Family B: catalog, Pages root, optional intermediate Pages node over a prefix/suffix/all pages, \
          1..4 pages, Info, shared target, unreachable holder, stream - numbers dense from 1, dense from 3 or sparse; page numbers first, last or \
          spread among the others; every permutation of page numbers relative to page order; other roles ascending or descending; 4 generation \
-         patterns. Each structure x start in {1,2,3,n,max+1,1000} + renumber_objects() x dangling refs off/on x every bookmark list (0..3 \
-         top-level bookmarks over all targets, one nested child, quick: <= 2 top-level for >= 3 targets). Distinct by construction (the tags bind \
+         patterns (none, all, alternating, pages only; quick with 4 pages: none and alternating). Each structure x start in {1,2,3,n,max+1,1000} + renumber_objects() x dangling refs off/on (quick, family B with 4 pages: on only) \
+         x every bookmark list: family B 0..3 top-level bookmarks over all pages, one top-level + one nested child, two top-level + a child \
+         of the second (quick: 4 pages -> 0..2 top-level + the nested pair; 3 pages -> without the last group); family A 0..2 top-level + the \
+         nested pair (thorough, n <= 4 or one target: as family B). Distinct by construction (the tags bind \
          roles to numbers); a case is non-trivial when the recovered renaming is not the identity; the plain entry point repeats the input of \
          start 1 and is not counted as distinct",
     );
@@ -1193,8 +1233,9 @@ fn main() {
         .filter(|f| f["property"] == "C10" && f["status"] == "open")
         .filter_map(|f| f["finding_id"].as_str().map(String::from))
         .collect();
-    let shv = Shared { run: &run, open, full_json_left: AtomicU64::new(40), samples_left: AtomicU64::new(4) };
+    let shv = Shared { run: &run, open, full_json_left: [AtomicU64::new(16), AtomicU64::new(16), AtomicU64::new(16), AtomicU64::new(16)], samples_left: AtomicU64::new(3) };
     family_a(&run, &shv);
+    shv.samples_left.store(3, Ordering::SeqCst);
     run.set("wall_family_a_s", json!((run.elapsed() * 10.0).round() / 10.0));
     family_b(&run, &shv);
     run.exhaustive(true);
